@@ -863,7 +863,7 @@ func ruleNarrowWith(c *Ctx, files func(string) bool, setup func(P *Prover, fn *s
 				okHi := P.Prove(v.add(constP(-hi), 1), b)
 				r.oblig(okLo && okHi)
 				if !(okLo && okHi) {
-					r.find(c.short(fn)+":narrowing "+src, c.instrPos(cv), "%s converts %s to a %d-bit integer but the value is not proved to lie in [%d, %d]: it wraps for large nodes or long words", c.short(fn), P.showTerm(v), tb, lo, hi)
+					r.find(c.short(fn)+":narrowing "+src, c.instrPos(cv), "%s converts %s to a %d-bit integer but the value is not proved to lie in [%d, %d]: it wraps silently for the inputs where it does not", c.short(fn), P.showTerm(v), tb, lo, hi)
 				}
 			}
 		}
